@@ -3,7 +3,7 @@
    repeated in coq/pins/C10.v and re-checked on every run. *)
 From Coq Require Import List Bool Arith.
 From GV Require Import Base.Outcome Base.AMap Model.GState Model.Creation Model.Query
-     Model.Components Model.Scc Spec.ReachDef Spec.CompSpec Proofs.ReachOk Proofs.ComponentsOk Proofs.PartitionsOk Proofs.SccOk.
+     Model.Components Model.Scc Spec.ReachDef Spec.CompSpec Proofs.ReachOk Proofs.ComponentsOk Proofs.PartitionsOk Proofs.SccOk Proofs.SccFullOk.
 Import ListNotations.
 
 Section C10.
@@ -87,6 +87,28 @@ Section C10.
     NoDup (concat cs) /\
     (forall x, In x (get_all_node_names g) -> In x (concat cs)).
   Proof. exact (scc_partition teqb teqb_spec). Qed.
+
+  (* FULL correctness of the loop: every emitted set is exactly one class of mutual
+     reachability along the neighbour relation the loop reads ([ord] applied to the successor
+     set), for EVERY order oracle and every graph state, every run that returns *)
+  Theorem C10_scc_classes : forall (ord : list T -> list T) (g : gstate) cs,
+    strongly_connected_components teqb ord g = Ok cs ->
+    forall c, In c cs -> exists v, forall y, In y c <-> mutual teqb ord g v y.
+  Proof. exact (scc_classes teqb teqb_spec). Qed.
+
+  (* hence: strongly_connected_components IS the partition of the node list into the classes
+     of mutual reachability along the successor relation, whenever [ord] permutes each
+     successor set (as any HashSet iteration does) and successors are nodes of the graph
+     (decided by the executable test wstep_ok_b, evaluated on every case) *)
+  Theorem C10_scc : forall (ord : list T -> list T) (g : gstate) cs,
+    (forall l x, In x (ord l) <-> In x l) ->
+    wstep_ok_b teqb g = true ->
+    strongly_connected_components teqb ord g = Ok cs ->
+    is_component_partition (get_all_node_names g) (smutual teqb g) cs.
+  Proof.
+    intros ord g cs Hord Hok.
+    exact (scc_correct teqb teqb_spec ord g Hord (succ_rows_closed teqb teqb_spec g Hok) cs).
+  Qed.
 
   Theorem C10_node_component : forall (g : gstate) x s,
     node_connected_component teqb g x = Ok s ->
